@@ -91,12 +91,23 @@ func runC19(c *Ctx) {
 			for _, nt := range nilTests(call) {
 				failEdge, okEdge = nt.nonNil, nt.isNil
 			}
+			tests := nilTests(call)
 			for _, r := range findInstrs(ncp, isReturn) {
 				ret := r.(*ssa.Return)
 				if isNilConst(ret.Results[0]) {
 					continue
 				}
-				c.check(okEdge != nil && okEdge.Dominates(r.Block()) && len(okEdge.Preds) == 1, "R1", "client returned only after a good handshake", pos(r), "dominated by recvVersion() == nil", "a Client can be returned although the version exchange failed or was skipped")
+				// on paths: no way to this return around the version exchange, and none from the side of its test on
+				// which it failed (what the path knows — the error it carries is not nil — is kept, so the shape after
+				// the handshake has been put into a helper and inlined back decides the same way)
+				isR := func(in ssa.Instruction) bool { return in == r }
+				good := okEdge != nil && len(tests) > 0 && !reachAvoiding(ncp, nil, isR, func(in ssa.Instruction) bool { return in == ssa.Instruction(call) })
+				for _, nt := range tests {
+					if reachFromNilSide(nt, true, isR, nil) {
+						good = false
+					}
+				}
+				c.check(good, "R1", "client returned only after a good handshake", pos(r), "reached only through recvVersion() == nil", "a Client can be returned although the version exchange failed or was skipped")
 			}
 			if failEdge != nil {
 				closes := !reachFromBlock(failEdge, isReturn, func(in ssa.Instruction) bool {
@@ -444,6 +455,9 @@ func runC19(c *Ctx) {
 					served[s] = true
 				}
 			}
+			for name := range p.extendedDecodeTable() {
+				served[name] = true
+			}
 			// the default arm yields errUnknownExtendedPacket
 			unk := false
 			eachInstr(ub, func(in ssa.Instruction) {
@@ -698,6 +712,9 @@ func checkDecodedOnlyIfConfigured(c *Ctx, rule string) {
 		c.check(guarded, rule, "extended request decoded only if configured: "+what, p.Pos(in.Pos()), "reached only after the name was found in sftpExtensions",
 			"the request is given a specific packet (and is then served) for any built-in name, whether or not SetSFTPExtensions left it in the advertised list: a client is told the extension is absent and the server performs it anyway")
 	})
+	if k := len(p.extendedDecodeTable()); k > n {
+		n = k // one store fed from a table of constructors
+	}
 	c.check(n >= 3, rule, "extended request kinds", p.Pos(ub.Pos()), fmt.Sprintf("%d specific packets", n), fmt.Sprintf("only %d specific packets assigned in the extended decoder", n))
 }
 
